@@ -11,6 +11,46 @@ from sa.shape import canon
 ob = Registry()
 
 
+def _is_excess_test(x: ast.AST, n, self_: str) -> bool:
+    """x is true exactly when the history holds more than max_history_size events: `len(H) - M > 0` in any linear spelling, or a local that holds the excess
+    (`0` when there is no bound, else `max(0, len(H) - M)` / `len(H) - M`) used as a truth value."""
+    from sa.loops import lin
+
+    H, M = f'len({self_}.event_history)', f'{self_}.max_history_size'
+
+    def is_excess(e: ast.AST) -> bool:
+        if isinstance(e, ast.Call) and isinstance(e.func, ast.Name) and e.func.id == 'max' and len(e.args) == 2:
+            zero = [a for a in e.args if isinstance(a, ast.Constant) and a.value == 0]
+            rest = [a for a in e.args if not (isinstance(a, ast.Constant) and a.value == 0)]
+            return len(zero) == 1 and len(rest) == 1 and is_excess(rest[0])
+        l = lin(e, {})
+        return l is not None and {k: v for k, v in l.items() if v} == {H: 1, M: -1}
+
+    if isinstance(x, ast.Compare) and len(x.ops) == 1 and isinstance(x.ops[0], (ast.Gt, ast.Lt)):
+        a, b = (x.left, x.comparators[0]) if isinstance(x.ops[0], ast.Gt) else (x.comparators[0], x.left)
+        diff = ast.BinOp(left=a, op=ast.Sub(), right=b)
+        return is_excess(diff)
+    if isinstance(x, ast.Name):
+        from sa.loader import parent as _parent
+
+        fn = n.ast
+        while fn is not None and not isinstance(fn, (ast.FunctionDef, ast.AsyncFunctionDef)):
+            fn = _parent(fn)
+        defs = [d for d in own_nodes(fn) if isinstance(d, ast.Assign) and len(d.targets) == 1 and isinstance(d.targets[0], ast.Name) and d.targets[0].id == x.id] if fn is not None else []
+        if not defs:
+            return False
+        for d in defs:
+            if isinstance(d.value, ast.Constant) and not d.value.value:
+                # "no excess": only where there is no bound at all
+                gi = q.enclosing(d, (ast.If,))
+                if gi is None or U(gi.test) not in (f'not {M}', f'{M} is None') or not q.lexically_in(d, gi, 'body'):
+                    return False
+            elif not is_excess(d.value):
+                return False
+        return True
+    return False
+
+
 def is_bound_step(n, self_: str) -> bool:
     """`if <..> len(self.event_history) > self.max_history_size: self.cleanup_event_history()` or a direct cleanup call."""
     if n.kind == 'if':
@@ -20,7 +60,7 @@ def is_bound_step(n, self_: str) -> bool:
             return False
         conj = n.ast.test.values if isinstance(n.ast.test, ast.BoolOp) and isinstance(n.ast.test.op, ast.And) else [n.ast.test]
         allowed = {f'{self_}.max_history_size', f'{self_}.max_history_size is not None', f'len({self_}.event_history) > {self_}.max_history_size', f'{self_}.max_history_size < len({self_}.event_history)'}
-        return all(U(x) in allowed for x in conj)
+        return all(U(x) in allowed or _is_excess_test(x, n, self_) for x in conj)
     if n.kind == 'stmt':
         return bool(q.node_calls(n, 'cleanup_event_history')) and q.enclosing(n.ast, (ast.If,)) is None
     return False
@@ -72,6 +112,193 @@ def sort_info(fn: ast.AST, lst: str) -> list[tuple[ast.Call, bool, str]]:
     return out
 
 
+def _class_const_tuple(c: Ctx, cls: str, name: str) -> list[str] | None:
+    ci = c.prog.cls(cls)
+    vals = [st.value for st in ci.node.body if isinstance(st, (ast.Assign, ast.AnnAssign)) and U(st.targets[0] if isinstance(st, ast.Assign) else st.target) == name and st.value is not None]
+    if len(vals) == 1 and isinstance(vals[0], (ast.Tuple, ast.List)) and all(isinstance(e, ast.Constant) and isinstance(e.value, str) for e in vals[0].elts) and not c.cg.all_writes(name):
+        return [e.value for e in vals[0].elts]
+    return None
+
+
+def bucket_dict_design(c: Ctx, u: Unit, fn: ast.AST, self_: str) -> bool:
+    """The other natural design of the same algorithm: one dict of lists keyed by status, filled by `buckets[event.event_status].append(..)`, each list sorted oldest-first, and a
+    loop over a constant ORDER = ('completed', 'started', 'pending') that takes `buckets[status][:excess - len(removed)]`.  Returns True (after reporting) when the function is
+    written this way; False when it is not (the three-list design is then expected)."""
+    nodes = list(own_nodes(fn))
+    orders = {}
+    for n in nodes:
+        if isinstance(n, ast.Attribute) and isinstance(n.value, ast.Name) and n.value.id == self_:
+            t = _class_const_tuple(c, 'EventBus', n.attr)
+            if t is not None and set(t) == {'completed', 'started', 'pending'}:
+                orders[n.attr] = t
+    bdefs = [n for n in nodes if isinstance(n, (ast.Assign, ast.AnnAssign)) and isinstance(n.value, ast.DictComp) and isinstance(n.value.value, ast.List) and not n.value.value.elts
+             and isinstance(n.value.generators[0].iter, ast.Attribute) and n.value.generators[0].iter.attr in orders]
+    bdefs += [n for n in nodes if isinstance(n, (ast.Assign, ast.AnnAssign)) and isinstance(n.value, ast.Dict) and n.value.keys and all(isinstance(k, ast.Constant) for k in n.value.keys)
+              and {k.value for k in n.value.keys} == {'completed', 'started', 'pending'} and all(isinstance(v, ast.List) and not v.elts for v in n.value.values)]
+    if len(bdefs) != 1:
+        return False
+    B = U(bdefs[0].targets[0] if isinstance(bdefs[0], ast.Assign) else bdefs[0].target)
+    ok = True
+
+    def bad(what: str, why: str, node=None) -> None:
+        nonlocal ok
+        ok = False
+        c.fail(u, what, why, node=node)
+
+    # (ii) classification by the event's own status
+    fills = [n for n in nodes if isinstance(n, ast.Call) and call_name(n) == 'append' and isinstance(n.func.value, ast.Subscript) and U(n.func.value.value) == B]
+    if len(fills) == 1 and U(fills[0].func.value.slice).endswith('.event_status') and isinstance(q.enclosing(fills[0], (ast.For,)), ast.For) and U(q.enclosing(fills[0], (ast.For,)).iter) == f'{self_}.event_history.items()' \
+            and q.enclosing(fills[0], (ast.If,)) is None:
+        c.ok(where(u, fills[0]), f'every event of the history is filed under {B}[event.event_status]')
+    else:
+        bad(f'{len(fills)} fills of {B}[..]', 'events are not classified by their status before eviction', bdefs[0])
+    # (iii) every bucket sorted oldest-first
+    sorts = [n for n in nodes if isinstance(n, ast.Call) and call_name(n) == 'sort' and isinstance(n.func.value, ast.Name)]
+    srt = None
+    for s_ in sorts:
+        lp = q.enclosing(s_, (ast.For,))
+        if lp is not None and U(lp.iter) == f'{B}.values()' and isinstance(lp.target, ast.Name) and lp.target.id == s_.func.value.id:
+            srt = s_
+    if srt is not None:
+        k = q.kw(srt, 'key')
+        rev = q.kw(srt, 'reverse')
+        if k is not None and 'event_created_at.timestamp()' in U(k) and (rev is None or (isinstance(rev, ast.Constant) and rev.value is False)):
+            c.ok(where(u, srt), 'every bucket is sorted ascending by event_created_at.timestamp()')
+        else:
+            bad(f'buckets sorted by {U(k)[:50] if k is not None else "nothing"}', 'eviction within a status is not oldest-first', srt)
+    else:
+        bad('the buckets are not all sorted', 'eviction within a status is not oldest-first', bdefs[0])
+    # (iv) removal in ORDER, bounded by the excess still to remove
+    rloops = [n for n in nodes if isinstance(n, ast.For) and isinstance(n.iter, ast.Attribute) and n.iter.attr in orders and isinstance(n.target, ast.Name)]
+    if len(rloops) != 1:
+        bad(f'{len(rloops)} loops over the eviction order', 'eviction does not go through completed, started, pending in that order', bdefs[0])
+        return True
+    rl = rloops[0]
+    order = orders[rl.iter.attr]
+    if order == ['completed', 'started', 'pending']:
+        c.ok(where(u, rl), f'eviction order: {order}')
+    else:
+        bad(f'eviction order is {order}', 'in-flight (started/pending) events can be evicted while a completed one remains', rl)
+    exts = [n for n in ast.walk(rl) if isinstance(n, ast.Call) and call_name(n) == 'extend']
+    sl = [x for e in exts for x in ast.walk(e) if isinstance(x, ast.Subscript) and isinstance(x.slice, ast.Slice) and isinstance(x.value, ast.Subscript) and U(x.value.value) == B and U(x.value.slice) == rl.target.id]
+    if len(exts) != 1 or len(sl) != 1 or sl[0].slice.lower is not None or sl[0].slice.upper is None or sl[0].slice.step is not None:
+        bad('removal is not `removed.extend(.. buckets[status][:k])`', 'eviction does not take the oldest events of each status from the front', rl)
+        return True
+    removed = U(exts[0].func.value)
+    kname = U(sl[0].slice.upper)
+    kdefs = [n for n in ast.walk(rl) if isinstance(n, ast.Assign) and U(n.targets[0]) == kname]
+    cnt_defs = [n for n in nodes if isinstance(n, ast.Assign) and isinstance(n.targets[0], ast.Name) and 'max_history_size' in U(n.value) and 'len(' in U(n.value)]
+    good_k = False
+    if len(kdefs) == 1 and isinstance(kdefs[0].value, ast.BinOp) and isinstance(kdefs[0].value.op, ast.Sub) and U(kdefs[0].value.right) == f'len({removed})':
+        x = U(kdefs[0].value.left)
+        good_k = any(U(d.targets[0]) == x for d in cnt_defs) or x == f'len({self_}.event_history) - {self_}.max_history_size'
+    if good_k:
+        c.ok(where(u, kdefs[0]), f'each status contributes at most the excess still to remove ({kname} = excess - len({removed}))')
+    else:
+        bad(f'slice bound {kname} is not (excess - len({removed}))', 'more events than the excess are evicted, or the bound ignores what was already taken', rl)
+    stop = [n for n in ast.walk(rl) if isinstance(n, ast.If) and any(isinstance(b, (ast.Break, ast.Continue)) for b in n.body) and kname in U(n.test)]
+    if stop:
+        c.ok(where(u, stop[0]), f'later statuses are touched only while {kname} > 0')
+    for d in cnt_defs:
+        v = U(d.value)
+        if f'len({self_}.event_history) - {self_}.max_history_size' in v:
+            c.ok(where(u, d), f'{U(d.targets[0])} is len(history) - max_history_size (clamped at 0)')
+    dels = [w for w in c.cg.writes[u.key] if w.attr == 'event_history' and w.how == 'del']
+    if dels:
+        c.ok(where(u, dels[0].node), 'the selected ids are deleted from event_history')
+    else:
+        bad('no deletion from event_history', 'selected events are never removed: history is unbounded')
+    return True
+
+
+def tier_algebra_design(c: Ctx, u: Unit, fn: ast.AST, self_: str) -> bool:
+    """The third design: the eviction order is ONE list built with comprehensions, concatenation and sorting, and the first `excess` ids of it are deleted.  The order is evaluated
+    in the tier algebra (rules/tiers.py).  Returns False when the function is not written this way (the order cannot be evaluated)."""
+    from sa.loops import lin
+
+    from .tiers import ALL, RANK, TierEval, describe
+
+    H, M = f'len({self_}.event_history)', f'{self_}.max_history_size'
+    nodes = list(own_nodes(fn))
+    defs: dict[str, list[ast.AST]] = {}
+    for n in nodes:
+        if isinstance(n, (ast.Assign, ast.AnnAssign)) and n.value is not None:
+            t = n.targets[0] if isinstance(n, ast.Assign) else n.target
+            if isinstance(t, ast.Name):
+                defs.setdefault(t.id, []).append(n.value)
+    dels = [n for n in nodes if isinstance(n, ast.Delete) and any(isinstance(t, ast.Subscript) and U(t.value) == f'{self_}.event_history' for t in n.targets)]
+    pops = [n for n in nodes if isinstance(n, ast.Call) and call_name(n) == 'pop' and isinstance(n.func, ast.Attribute) and U(n.func.value) == f'{self_}.event_history']
+    sites = dels + pops
+    if len(sites) != 1:
+        return False
+    lp = q.enclosing(sites[0], (ast.For,))
+    if lp is None or not isinstance(lp.target, ast.Name):
+        return False
+    it = lp.iter
+    if isinstance(it, ast.Name) and len(defs.get(it.id, [])) == 1:
+        it = defs[it.id][0]
+    # [e.event_id for e in ORDER[:k]]  |  ORDER[:k] iterated directly
+    if isinstance(it, (ast.ListComp, ast.GeneratorExp)) and len(it.generators) == 1 and not it.generators[0].ifs and isinstance(it.generators[0].target, ast.Name) \
+            and U(it.elt) == f'{it.generators[0].target.id}.event_id':
+        sl = it.generators[0].iter
+    else:
+        sl = it
+    if isinstance(sl, ast.Name) and len(defs.get(sl.id, [])) == 1:
+        sl = defs[sl.id][0]
+    if not (isinstance(sl, ast.Subscript) and isinstance(sl.slice, ast.Slice)):
+        return False
+    te = TierEval(c, self_)
+    te.run(fn)
+    order = te.ev(sl.value)
+    if order is None:
+        return False
+    c.ok(where(u, sl), f'eviction order evaluated in the tier algebra: {describe(order)}')
+    # the slice: the first `excess` entries
+    k = sl.slice.upper
+    if isinstance(k, ast.Name) and len(defs.get(k.id, [])) == 1:
+        k = defs[k.id][0]
+    kl = lin(k, {}) if k is not None else None
+    if sl.slice.lower is None and sl.slice.step is None and kl is not None and {a: b for a, b in kl.items() if b} == {H: 1, M: -1}:
+        c.ok(where(u, sl), 'the first len(history) − max_history_size entries of the order are evicted')
+    else:
+        c.fail(u, f'evicts {U(sl.value)[:40]}[{U(sl.slice)}]', 'the events evicted are not exactly the first len(history) − max_history_size of the eviction order (history stays above its bound, or in-flight events '
+               'are evicted needlessly)', node=sl)
+    covered = frozenset().union(*[t.statuses for t in order]) if order else frozenset()
+    if covered == ALL and all(t.exhaustive for t in order):
+        c.ok(where(u, sl), 'the order contains every event of the history')
+    else:
+        c.fail(u, f'eviction order covers {describe(order)}', 'the eviction order does not contain every event of the history: when the events it leaves out fill the history, nothing can be evicted '
+               'and the bound is exceeded', node=sl)
+    seen: set[str] = set()
+    last = -1
+    ok = True
+    for t in order:
+        ranks = sorted({RANK[s_] for s_ in t.statuses})
+        if len(ranks) > 1:
+            c.fail(u, f'one tier mixes {sorted(t.statuses, key=RANK.get)}', f'{" and ".join(sorted(t.statuses, key=RANK.get))} events form one run of the eviction order ({t.why or "not separated by status"}): '
+                   'between them only position decides, so an event of a later class (pending before started before completed are kept longest) is evicted while one of an earlier class remains', node=sl)
+            ok = False
+        if ranks and ranks[0] < last:
+            c.fail(u, f'eviction order is {describe(order)}', 'in-flight (started/pending) events can be evicted while a completed one remains (or pending before started)', node=sl)
+            ok = False
+        if seen & t.statuses:
+            c.fail(u, f'status {sorted(seen & t.statuses)} appears twice in the eviction order', 'an event is counted twice in the eviction order: fewer distinct events than the excess are evicted', node=sl)
+            ok = False
+        seen |= t.statuses
+        last = max(ranks) if ranks else last
+        if not t.sorted:
+            c.fail(u, f'tier {sorted(t.statuses, key=RANK.get)} is not sorted by event_created_at', f'eviction among {"/".join(sorted(t.statuses))} events is not oldest-first', node=sl)
+            ok = False
+    if te.naive_sort is not None:
+        c.fail(u, f'sorted by comparing datetime objects directly ({U(te.naive_sort)[:60]})', 'event_created_at accepts timezone-naive and timezone-aware values (caller-supplied, rehydrated events); comparing one '
+               'with the other raises TypeError inside the cleanup: dispatch() raises after having enqueued the event and the history stays over its bound', node=te.naive_sort)
+        ok = False
+    if ok:
+        c.ok(where(u, sl), 'completed before started before pending, each run oldest-first')
+    c.ok(where(u, sites[0]), 'the selected ids are deleted from event_history')
+    return True
+
+
 @ob('C13.2', 'ORD/SHAPE', 'cleanup_event_history removes len(history) − max_history_size events, taking completed events first, then started, then pending, each oldest-first '
     '(sorted ascending by event_created_at, sliced from the front)')
 def c13_2(c: Ctx) -> None:
@@ -80,6 +307,16 @@ def c13_2(c: Ctx) -> None:
     fn = q.unrolled_view(u.node)  # `for lst in (completed, started, pending): <block>` is the three blocks in that order
     # classification
     cls_loop = [n for n in own_nodes(fn) if isinstance(n, ast.For) and U(n.iter) == f'{self_}.event_history.items()']
+    # a classic slip when the buckets are built generically: dict.fromkeys(keys, []) makes every key share ONE list
+    for n in own_nodes(fn):
+        if isinstance(n, ast.Call) and U(n.func) == 'dict.fromkeys' and len(n.args) == 2 and (isinstance(n.args[1], (ast.List, ast.Dict, ast.Set)) or (isinstance(n.args[1], ast.Call) and U(n.args[1].func) in ('list', 'dict', 'set'))):
+            c.fail(u, f'`{U(n)[:60]}`: every key shares one container', 'the status buckets are one and the same list: the "completed" tier contains every event, so eviction is plain oldest-first and in-flight '
+                   'events are evicted while completed ones remain', node=n)
+            return
+    if bucket_dict_design(c, u, fn, self_):
+        return
+    if not cls_loop and tier_algebra_design(c, u, fn, self_):
+        return
     if len(cls_loop) != 1:
         c.fail(u, 'no single classification loop over event_history.items()', 'events are not classified by status before eviction')
         return
